@@ -17,7 +17,7 @@ META = common.meta(
 
 def tasks(tier, seed):
     out = []
-    n = 80 if tier == 'quick' else 500
+    n = 80 if tier == 'quick' else common.thorough(500)
     for k in range(n):
         out.append(('vt.props.c04', 't3_case', {'seed': seed, 'k': k, 'backend': 'T3', 'd': 2 + k % 4,
                                                 'kind': ['real', 'complex'][k % 2], 'spectrum': ['flat', 'decay'][(k // 2) % 2]}))
